@@ -1923,6 +1923,9 @@ def _ev(t, env, memo):
         if o == "fshl":
             return (cc >> (w - c)) & M if c else a
         return (cc >> c) & M
+    if o in ("call:fmodf", "call:fmod"):
+        import fpeval
+        return fpeval.c_fmod(ev(t[2], env, memo), ev(t[3], env, memo), w)
     if o.startswith("call:"):
         n = o[5:]
         vs = [ev(x, env, memo) for x in t[2:] if isinstance(x, tuple)]
